@@ -151,6 +151,10 @@ SPECS["C14"] = dict(
     parts=[dict(name="stream", pkg="internal/upstream/transport", run="TestVerifC14", go="go1.26", env=E3ENV, gomaxprocs=1, engines=E3ENGINES,
                 files=dict(TRANSPORT_COMMON, **{"harness/transport/zz_verif_c14_test.go": "internal/upstream/transport/zz_verif_c14_test.go"}),
                 params={"quick": {"FAULTS": 2}, "thorough": {"FAULTS": 4}},
+                budget={"quick": 60, "thorough": 600}),
+           dict(name="doq-doh", pkg="internal/upstream/transport", run="TestVerifC14Q", go="go1.26", env=E3ENV, gomaxprocs=1, engines=E3ENGINES,
+                files=dict(TRANSPORT_COMMON, **{"harness/transport/zz_verif_c14q_test.go": "internal/upstream/transport/zz_verif_c14q_test.go"}),
+                params={"quick": {"DEPTH": 5, "FAULTS": 2}, "thorough": {"DEPTH": 7, "FAULTS": 3}},
                 budget={"quick": 60, "thorough": 600})],
 )
 
@@ -334,6 +338,45 @@ SPECS["C18"] = dict(
                 files=dict(UPSTREAM_COMMON, **{"harness/upstream/zz_verif_c18sock_test.go": "internal/upstream/zz_verif_c18sock_test.go"}), budget={"quick": 200, "thorough": 200})],
 )
 
+SPECS["C20"] = dict(
+    level="model_checking",
+    engine="E3 evx (race build + ownership hook) + E2 sched",
+    state_based=True,
+    technique="the exhaustive event-order explorations of C03/C05/C06/C13/C14/C18/C19 re-run as -race builds (vector-clock check on every explored order) with the buffer-ownership hook (double/foreign release, write-after-release audit, poison/uninit patterns in outputs)",
+    claim="On every event order explored for the transports, the listeners' framing, the cache/prefetch path and shutdown, the Go race detector reports no data race and the ownership hook sees no "
+          "double or foreign release, no write after release and no released or uninitialised pool memory in any wire output or client-visible response.",
+    trusted="race detection is per explored event order (hand-offs between harness and implementation goroutines go through synctest.Wait, which the detector understands); objects recycled via sync.Pool are covered by the race build, not by poisoning.",
+    rule="see evidence rule written by the harnesses (same spaces as the owning properties, one depth less in the quick tier)",
+    assumptions=[],
+    parts=[],  # filled below from the owning properties' parts
+)
+
+
+def _c20_parts():
+    import copy
+    out = []
+    plan = [("C05", "pipeline", {"DEPTH": 6, "FAULTS": 2}, {"DEPTH": 8, "FAULTS": 3}),
+            ("C06", "reuse", {"DEPTH": 6, "FAULTS": 2}, {"DEPTH": 8, "FAULTS": 3}),
+            ("C14", "stream", {"FAULTS": 2}, {"FAULTS": 4}),
+            ("C14", "doq-doh", {"DEPTH": 5, "FAULTS": 2}, {"DEPTH": 6, "FAULTS": 3}),
+            ("C18", "transports", {"DEPTH": 4, "FAULTS": 2}, {"DEPTH": 6, "FAULTS": 3}),
+            ("C13", "framing", {"MAXK": 2, "COARSEK": 2, "FULLSEG": 0, "SHARDDEPTH": 4}, {"MAXK": 2, "COARSEK": 3, "FULLSEG": 0, "SHARDDEPTH": 4}),
+            ("C19", "prefetch", {"DEPTH": 4, "FAULTS": 2}, {"DEPTH": 6, "FAULTS": 3}),
+            ("C03", "router", {}, {})]
+    for pid, pname, q, t in plan:
+        for p in SPECS[pid]["parts"]:
+            if p["name"] == pname:
+                d = copy.deepcopy(p)
+                d["name"] = pid.lower() + "-" + pname
+                d["race_only"] = True
+                d["env"] = dict(d.get("env", {}), VERIF_ONLY_OWNERSHIP="1")
+                d["params"] = {"quick": dict(d.get("params", {}).get("quick", {}), **q), "thorough": dict(d.get("params", {}).get("thorough", {}), **t)}
+                d["budget"] = {"quick": 100, "thorough": 900}
+                out.append(d)
+    return out
+
+
+SPECS["C20"]["parts"] = _c20_parts()
 
 # --------------------------------------------------------------------------------------------
 # Properties not (yet) claimed. Kept current: every property without a SPECS entry must be here.
